@@ -319,6 +319,20 @@ Theorem C02_text_roundtrip_holographic_target_chains :
     exists warns, parse_model cls numcanon holo_ok strict (lines_of (emit sp d)) = PRDoc d [] warns /\ Forall advisory warns.
 Proof. exact LexLinkTH4.text_roundtrip_coreth4_lex. Qed.
 
+(* ... and the general ELEMENT chains (Rt/LexLinkTH5*.v):  ["s"/\E1 ... /\En[->§T]]  with  Ei = W | W[arg1,..,argm],  arg = bare word | quoted string --
+   TokRoundTEx.h1  ["x"/\REQ/\ENUM[a,b]->§SELF]  is a member (LexLinkTH5Ex.h1_text) and is read back by this theorem inside the example document. *)
+From OV Require Rt.LexLinkTH5 Rt.LexLinkTH5Ex.
+Theorem C02_text_roundtrip_holographic_element_chains :
+  forall cls (hsh0 : str -> list sh) numcanon holo_ok strict sp d,
+    LexLinkTH5.coreth5_doc d = true -> LexLinkTH5.lex_safeth5_doc cls hsh0 d = true ->
+    TokRoundTHolo.nodes_side numcanon holo_ok ex_idnum (TokRoundTEx.hsh_lex cls) (dsections d) -> Forall (TokRoundT.field_num_ok numcanon) (dmeta d) ->
+    exists warns, parse_model cls numcanon holo_ok strict (lines_of (emit sp d)) = PRDoc d [] warns /\ Forall advisory warns.
+Proof. exact LexLinkTH5.text_roundtrip_coreth5_lex. Qed.
+Theorem C02_holographic_element_chain_lexed_alone_same_shape :
+  forall cls s es o, LexLinkTH2.cls_and_ok cls = true -> LexLinkTH3.cls_flow_ok cls = true -> LexLinkTH5.chain5_ok es o = true ->
+    TokRoundTEx.hsh_lex cls (LexLinkTH5.chain5_text s es o) = LexLinkTH5.chain5_shape s es o.
+Proof. exact LexLinkTH5.hsh_lex_chain5. Qed.
+
 (* ---- source-text pins (generated by harness/pinsets.py) ---- *)
 (* every function of these modules is, text for text (comments and docstrings excluded), the one the models of this
    property were written against and validated against: harness/translate/srcdigest_t.py, Src/Pin_*.v *)
